@@ -302,17 +302,26 @@ func c13Pair(c *rt.Ctx, o *rt.Obs, wop c12Op, readerFirst bool, fileLike bool) {
 		return
 	}
 	n := solo.opsOf[first]
-	for k := 0; k <= n; k++ {
+	// k = n+1: the first client runs until it has returned (a segment of k = n
+	// operations ends with its last storage operation, while the client is still
+	// on its way back to the caller), so that "acknowledged before the other one
+	// started" really holds
+	for k := 0; k <= n+1; k++ {
 		segs := []store.Segment{{Client: first, N: k}, {Client: second, N: -1}, {Client: first, N: -1}}
+		what := fmt.Sprintf("writer %s; %s preempted after %d of %d storage operations", wop, first, k, n)
 		if k == 0 {
 			segs = segs[1:]
+		}
+		if k == n+1 {
+			segs = []store.Segment{{Client: first, N: -1}, {Client: second, N: -1}}
+			what = fmt.Sprintf("writer %s; %s has returned before %s starts", wop, first, second)
 		}
 		res, err := c13Run(ctx, base, writers, 1, segs)
 		if err != nil {
 			o.Violation("setup-failed", err.Error())
 			return
 		}
-		c13Judge(c, o, res, fmt.Sprintf("writer %s; %s preempted after %d of %d storage operations", wop, first, k, n))
+		c13Judge(c, o, res, what)
 	}
 }
 
